@@ -55,8 +55,10 @@ def strat1d(tier):
 
 def strat2d(tier):
     nmax = 12 if tier == "quick" else 40
-    return st.builds(lambda nx, ny, lx, ly, c: dict(nx=nx, ny=ny, lx=lx, ly=ly, const=c),
-                     st.integers(1, nmax), st.integers(1, nmax), st.one_of(gen.logf(-2, 2), gen.logf(-9, 6)), st.one_of(gen.logf(-2, 2), gen.logf(-9, 6)), gen.sfloat(-3, 2))
+    # mostly small grids; a quarter of the cases have one long axis (up to 300 cells: counts that come out of float arithmetic go wrong at sparse sizes)
+    dims = st.one_of(st.tuples(st.integers(1, nmax), st.integers(1, nmax)), st.tuples(st.integers(1, nmax), st.integers(1, nmax)), st.tuples(st.integers(1, nmax), st.integers(1, nmax)),
+                     st.tuples(st.integers(13, 300), st.integers(1, 6)), st.tuples(st.integers(1, 6), st.integers(13, 300)))
+    return st.builds(lambda d, lx, ly, c: dict(nx=d[0], ny=d[1], lx=lx, ly=ly, const=c), dims, st.one_of(gen.logf(-2, 2), gen.logf(-9, 6)), st.one_of(gen.logf(-2, 2), gen.logf(-9, 6)), gen.sfloat(-3, 2))
 
 
 # ---------------------------------------------------------------- predicates
